@@ -91,7 +91,7 @@ theorem C09_reply_flag (e : Ep) (m : Msg) (reason : Nat) (hs : e.inSess = true) 
     have h1 : (sendSessTerm e reason true).1.emitted = e.emitted ++ [.sessTerm 1 reason] := by
       unfold sendSessTerm
       simp only [hs, ht, Bool.not_true, Bool.false_eq_true, if_false]
-      simp only [flushPendStart, sendMessage, kaReset, idleReset, setState]
+      simp only [flushPendStart, sendMessage, sendReady, kaReset, idleReset, setState]
       split <;> simp
     have h2 : ∀ e1 : Ep, (checkSessTerm (flushPendStart { e1 with gotTerm := true }).1).1.emitted = e1.emitted := by
       intro e1
@@ -101,7 +101,7 @@ theorem C09_reply_flag (e : Ep) (m : Msg) (reason : Nat) (hs : e.inSess = true) 
     rw [h2, h1]
   · unfold sendSessTerm
     simp only [hs, ht, Bool.not_true, Bool.false_eq_true, if_false]
-    simp only [flushPendStart, sendMessage, kaReset, idleReset, setState]
+    simp only [flushPendStart, sendMessage, sendReady, kaReset, idleReset, setState]
     split <;> simp
 
 /-- when both sides have requested termination, a received SESS_TERM is *not* answered by a second one -/
@@ -136,7 +136,7 @@ theorem C09_term_flushes (e : Ep) (r : Nat) (b : Bool) (hs : e.inSess = true) (h
     (sendSessTerm e r b).1.txPendStart = [] ∧ (sendSessTerm e r b).1.inTerm = true := by
   unfold sendSessTerm
   simp only [hs, ht, Bool.not_true, Bool.false_eq_true, if_false]
-  simp only [flushPendStart, sendMessage, kaReset, idleReset, setState]
+  simp only [flushPendStart, sendMessage, sendReady, kaReset, idleReset, setState]
   split <;> simp
 
 /-- **No session is left half-open**: a user close or the peer's disconnect closes the endpoint at any
@@ -192,7 +192,7 @@ theorem C09_terminate_keeps_progress (e : Ep) (r : Nat) (hi : WakeInv e) :
       · rfl
       · split
         · rfl
-        · simp only [flushPendStart, sendMessage, kaReset, idleReset, setState]
+        · simp only [flushPendStart, sendMessage, sendReady, kaReset, idleReset, setState]
           split <;> rfl
 
 end Tcpcl
